@@ -535,12 +535,13 @@ func TestVerifC11a(t *testing.T) {
 		phases = []phase{
 			{"full", 1, 2, func(n int) []c11Cfg { return c11Cfgs(n, allST, true, both) }},
 			{"small", 3, 3, func(n int) []c11Cfg { return c11Cfgs(n, allST, true, both) }},
-			// length 3 over the full alphabet: plain encodings under every cut mask, and one
-			// start-timestamp encoding with the appender re-opened before every append
+			// length 3 over the full alphabet: plain encodings with no cut / a cut before the second
+			// / before the third sample, and one start-timestamp encoding with the appender
+			// re-opened before every append
 			{"full", 3, 3, func(n int) []c11Cfg {
-				return append(c11Cfgs(n, []int{0}, true, []bool{false}), c11Cfg{ST: 2, Reopen: true})
+				return []c11Cfg{{ST: 0, Mask: 0}, {ST: 0, Mask: 1}, {ST: 0, Mask: 2}, {ST: 2, Mask: 0, Reopen: true}}
 			}},
-			{"small", 4, 4, func(n int) []c11Cfg { return c11Cfgs(n, []int{0, 2}, true, []bool{false}) }},
+			{"small", 4, 4, func(n int) []c11Cfg { return c11Cfgs(n, []int{0}, true, []bool{false}) }},
 		}
 	}
 	var phaseDesc []string
